@@ -74,3 +74,61 @@ func structuralInputs(thorough bool) []buildInput {
 	}
 	return ins
 }
+
+// diamondInputs: file sets in which two files refer to the same file with
+// every pair of relations (import, render, extends) and the referring
+// statements lie at different positions of files of different lengths, so that
+// an error of one file reported with a position of the other is inconsistent
+// with the content of the named file.
+func diamondInputs(seed func(n int) int) []buildInput {
+	var ins []buildInput
+	pad := func(k int) string {
+		s := "{# "
+		for i := 0; i < k; i++ {
+			s += "pad é "
+			if i%3 == 2 {
+				s += "\n"
+			}
+		}
+		return s + "#}"
+	}
+	ref := func(rel, target string) string {
+		switch rel {
+		case "import":
+			return "{% import \"" + target + "\" %}"
+		case "extends":
+			return "{% extends \"" + target + "\" %}"
+		}
+		return "{{ render \"" + target + "\" }}"
+	}
+	rels := []string{"import", "render", "extends"}
+	for _, ra := range rels {
+		for _, rb := range rels {
+			for _, order := range []int{0, 1} {
+				for rep := 0; rep < 2; rep++ {
+					pa, pb := 1+seed(40), 1+seed(6)
+					if rep == 1 {
+						pa, pb = pb, pa
+					}
+					a := pad(pa) + ref(ra, "t.html") + "\n{% macro A %}a{% end %}"
+					b := pad(pb) + ref(rb, "t.html") + "\n{% macro B %}b{% end %}"
+					idx := "{{ render \"a.html\" }}\n{{ render \"b.html\" }}"
+					if order == 1 {
+						idx = "{{ render \"b.html\" }}\n\n  {{ render \"a.html\" }}"
+					}
+					in := tmplInput("index.html", idx, false)
+					in.Files["a.html"] = Hx(a)
+					in.Files["b.html"] = Hx(b)
+					in.Files["t.html"] = Hx("{% macro T %}t{% end %}{% var V = 1 %}")
+					ins = append(ins, in)
+					// the same with the target reached directly from index too
+					in2 := tmplInput("index.html", ref(ra, "t.html")+"\n"+pad(pb)+"{{ render \"b.html\" }}", false)
+					in2.Files["b.html"] = Hx(b)
+					in2.Files["t.html"] = in.Files["t.html"]
+					ins = append(ins, in2)
+				}
+			}
+		}
+	}
+	return ins
+}
